@@ -388,6 +388,74 @@ def explore_worker(chk, cases, tag):
         logging.disable(logging.NOTSET)
 
 
+def explore_node(chk, cases, rng, tag):
+    """live node: every byte string of the corpus that decodes is handed, message by message, to the real state machine in
+    Open (one tick each): no input may make the tick raise. Plus the wedge test of the receive worker: garbage that cannot
+    be framed (length field below 20) followed by a well-formed message in a later read - the message must still arrive."""
+    import logging
+    logging.disable(logging.CRITICAL)
+    import psmdrv
+    from props import c06
+    from bromelia.base import DiameterMessage, DiameterAVP, DiameterHeader
+    import bromelia.exceptions as X
+    node = psmdrv.Node("server", 1)
+    fac = c06.Factory("server", 1)
+    cer, _tok, _sid = fac.loaded("cer.ok", 1, 2)
+
+    def open_node():
+        node.reset()
+        node.inject(cer)
+        node.tick()
+        return type(node.psm.current_state).__name__ == "Open"
+
+    # vendor-flagged twins of base AVPs (same code, V bit and a Vendor-ID): decode as generic AVPs under another name
+    twins = []
+    for code in (293, 283, 264, 296, 263, 268, 258):
+        for with_dest in (False, True):
+            hdr = DiameterHeader(flags=b"\xc0", command_code=(316).to_bytes(3, "big"), application_id=(16777251).to_bytes(4, "big"))
+            m = DiameterMessage(hdr)
+            if with_dest:
+                from bromelia.avps import DestinationRealmAVP
+                m.append(DestinationRealmAVP(psmdrv.LREALM))
+            m.append(DiameterAVP(code=code, flags=0xC0, vendor_id=10415, data=b"local.example"))
+            twins.append(("vendor-twin=%d" % code, m.dump()))
+    n_ticked = 0
+    for kind, w in list(cases) + twins:
+        try:
+            msgs = DiameterMessage.load(w)
+        except BaseException as e:
+            if isinstance(e, (KeyboardInterrupt, SystemExit)):
+                raise
+            continue
+        for m in msgs[:3]:
+            if not open_node():
+                raise core.HarnessError("could not bring the node to Open")
+            node.inject(m)
+            exc = node.tick()
+            n_ticked += 1
+            inp = {"op": "node-tick-in-open", "mutation": kind.split("=")[0], "hex": w.hex()[:600]}
+            chk.case(inp, kind="node:%s:%s" % (kind.split("=")[0], tag))
+            if exc not in (None, "stopped"):
+                chk.violation("a decodable message made the state machine raise %s (its thread would die, the node is wedged)" % exc,
+                              inp, "no exception", exc)
+            if not node.lock_free():
+                chk.violation("a decodable message left the association lock held", inp, "lock released", "held")
+    chk.extra["node_ticks"] = chk.extra.get("node_ticks", 0) + n_ticked
+    # wedge test
+    good = fac.wire("app.req-none", 5, 6)
+    for ln in (0, 1, 19):
+        for extra in (0, 7, 40):
+            garbage = bytes([1]) + ln.to_bytes(3, "big") + bytes(rng.randrange(256) for _ in range(16 + extra))
+            a1, l1, c1, e1 = worker_iteration(garbage)
+            a2, l2, c2, e2 = worker_iteration(good, c1) if a1 is True else (a1, l1, c1, e1)
+            a3, l3, c3, e3 = worker_iteration(good, c2) if (a2 is True and e2 == "none") else (a2, l2, c2, e2)
+            inp = {"op": "worker-after-garbage", "garbage": garbage.hex(), "then": "a well-formed request, twice"}
+            chk.case(inp, kind="worker:wedge:%s" % tag)
+            if a3 is not True or l3 or (e2 == "none" and e3 == "none"):
+                chk.violation("after unframeable garbage the receive worker never delivers well-formed messages again", inp,
+                              "the request is enqueued by the next iterations", {"alive": a3, "lock": l3, "carried_bytes": len(c3), "enqueued": e3[:60]})
+
+
 def run(chk):
     rng = random.Random(chk.seed)
     gen_dict.generate()
@@ -401,8 +469,9 @@ def run(chk):
                 "its first 20 bytes) DiameterAVP.load under a loop-iteration counter and a 2 s alarm. distinct = distinct "
                 "(API, bytes).")
     chk.trusted += ["correspondence harness props/c03.py (watchdog: SIGALRM + line-event loop counter)",
-                    "live-connection part of the statement (worker threads, lock state) is covered by the transport checks C04/C08 "
-                    "and by the worker-step model; here: decoder only"]
+                    "live part: one real receive-worker iteration per byte string (whole and cut in two), every decodable string "
+                    "ticked message by message through the real state machine in Open (psmdrv), and the wedge test (garbage, then "
+                    "well-formed data); threads and sockets themselves are C04/C08"]
     chk.assumptions += ["heap growth is bounded through the proven object-count bound (len/8 AVPs, len/20 messages); actual memory is not measured"]
     n_seeds = 60 if chk.tier == "quick" else 1500
     uniq = explore(chk, g, n_seeds, 150, "sweep", sweep=True)
@@ -412,6 +481,7 @@ def run(chk):
     rest = [c for c in uniq if c[0] not in ("typed-data", "seed", "garbage", "zeros")]
     rng.shuffle(rest)
     explore_worker(chk, sample + rest[: (1500 if chk.tier == "quick" else 100000)], "sweep")
+    explore_node(chk, sample + rest[: (600 if chk.tier == "quick" else 30000)], rng, "sweep")
 
     def search():
         explore(chk, g, 3 * n_seeds, 200, "search")
